@@ -86,6 +86,33 @@ def _verify_sig(identity32, spk_pub32, sig):
         return False
 
 
+def _committed_prekey_ids(d):
+    import sqlite3
+    c = sqlite3.connect(os.path.join(d, "axolotl.db"))
+    try:
+        return set(r[0] for r in c.execute("SELECT prekey_id FROM prekeys").fetchall())
+    finally:
+        c.close()
+
+
+def _peer_first_message(d, mgr, store, kid, step):
+    """a contact fetches my bundle with one-time key `kid` and sends a first message: python-axolotl consumes the key"""
+    from yowsup.axolotl.manager import AxolotlManager
+    from yowsup.axolotl.store.sqlite.liteaxolotlstore import LiteAxolotlStore
+    from axolotl.state.prekeybundle import PreKeyBundle
+    import yowsup.axolotl.manager as mm
+    from checks import c17
+    mm.random = c17._FixedRandom
+    peer = AxolotlManager(LiteAxolotlStore(os.path.join(d, "peer%d.db" % step)), "4915900000%03d" % step)
+    pk = store.loadPreKey(kid)
+    spk = mgr.load_latest_signed_prekey(generate=True)
+    bundle = PreKeyBundle(mgr.registration_id, 1, pk.getId(), pk.getKeyPair().getPublicKey(), spk.getId(), spk.getKeyPair().getPublicKey(), spk.getSignature(), mgr.identity.getPublicKey())
+    peer.create_session("4915901234567", bundle)
+    ct = peer.encrypt("4915901234567", b"first message")
+    mgr.decrypt_pkmsg("4915900000%03d" % step, ct.serialize(), True)
+    peer._store.identityKeyStore.dbConn.close()
+
+
 def h_history(ctx, n, prefix=()):
     d = tempfile.mkdtemp(prefix="c14_", dir=_TMP)
     try:
@@ -93,7 +120,8 @@ def h_history(ctx, n, prefix=()):
         world = _World()
         st, w, net, disp, app, mgr, store, sent = _mk_stack(d, world)
         confirmed, offered_ever = set(), set()
-        outstanding = None        # (iq id, ids) of the upload awaiting its reply on this connection
+        outstanding = []          # [(iq id, ids)] uploads awaiting their reply on this connection, oldest first
+        consumed = set()
         authed = False
         hist, obs = [], []
         for step in range(n):
@@ -106,6 +134,10 @@ def h_history(ctx, n, prefix=()):
                 possible.append("server-asks-for-keys")
             if disp.state == "up" and outstanding:
                 possible += ["upload-result", "upload-error"]
+                if len(outstanding) > 1:
+                    possible.append("upload-result-newest")
+            if (confirmed - consumed):
+                possible.append("peer-first-message")
             if disp.state == "up":
                 possible.append("connection-loss")
             possible += ["restart", "stop"]
@@ -120,7 +152,7 @@ def h_history(ctx, n, prefix=()):
             tag = "#%d %s" % (step, ev)
             unsent_before = set(r.getId() for r in store.preKeyStore.loadUnsentPendingPreKeys())
             raised = None
-            out0 = outstanding
+            out0 = None
             try:
                 if ev == "connect":
                     app.connect()
@@ -131,10 +163,16 @@ def h_history(ctx, n, prefix=()):
                     authed = True
                 elif ev == "server-asks-for-keys":
                     net.receive(N("notification", {"id": "n%d" % step, "from": "s.whatsapp.net", "type": "encrypt", "t": "1400000000"}, [N("count", {"value": "1"})]))
-                elif ev == "upload-result":
-                    net.receive(N("iq", {"id": outstanding[0], "type": "result", "from": "s.whatsapp.net"}))
+                elif ev in ("upload-result", "upload-result-newest"):
+                    out0 = outstanding.pop(0 if ev == "upload-result" else -1)
+                    net.receive(N("iq", {"id": out0[0], "type": "result", "from": "s.whatsapp.net"}))
                 elif ev == "upload-error":
-                    net.receive(N("iq", {"id": outstanding[0], "type": "error", "from": "s.whatsapp.net"}, [N("error", {"code": "500", "text": "internal"})]))
+                    out0 = outstanding.pop(0)
+                    net.receive(N("iq", {"id": out0[0], "type": "error", "from": "s.whatsapp.net"}, [N("error", {"code": "500", "text": "internal"})]))
+                elif ev == "peer-first-message":
+                    kid = sorted(confirmed - consumed)[0]
+                    _peer_first_message(d, mgr, store, kid, step)
+                    consumed.add(kid)
                 elif ev == "connection-loss":
                     disp.state = "idle"
                     net.onDisconnected()
@@ -145,26 +183,27 @@ def h_history(ctx, n, prefix=()):
                         c.close()
                     st, w, net, disp, app, mgr, store, sent = _mk_stack(d, world)
                     mark = 0
-                    authed, outstanding = False, None
+                    authed, outstanding = False, []
             except Exception as e:
                 raised = e
             c16.run_loop(st)
             if ev in ("connection-loss", "restart") or disp.state != "up":
                 authed = authed and disp.state == "up"
                 if disp.state != "up":
-                    outstanding = None
+                    outstanding = []
             # a result reply that the layer turns into a reconnect (passive login finished)
-            if ev == "upload-result":
+            if ev == "peer-first-message":
+                obs.append((tag + ": a consumed one-time key is gone from the store", not store.containsPreKey(kid)))
+                obs.append((tag + ": ... also for a process started now (committed state)", kid not in _committed_prekey_ids(d)))
+            if ev in ("upload-result", "upload-result-newest"):
                 obs.append((tag + ": confirmed ids are marked as uploaded in the store",
                             set(out0[1]) & set(r.getId() for r in store.preKeyStore.loadUnsentPendingPreKeys()) == set()))
                 confirmed |= set(out0[1])
-                outstanding = None
                 if disp.state != "up":
                     authed = False
             if ev == "upload-error":
                 obs.append((tag + ": rejection is reported", raised is not None))
                 obs.append((tag + ": rejected keys stay pending", set(out0[1]) <= set(r.getId() for r in store.preKeyStore.loadUnsentPendingPreKeys())))
-                outstanding = None
                 raised = None
             if raised is not None:
                 obs.append((tag + ": no exception (%s: %s)" % (type(raised).__name__, str(raised)[:80]), False))
@@ -179,7 +218,7 @@ def h_history(ctx, n, prefix=()):
                 obs.append((tag + ": carries the identity key", bytes(p["identity"]) == mgr.identity.getPublicKey().serialize()[1:]))
                 obs.append((tag + ": carries the registration id", int.from_bytes(p["registration"], "big") == mgr.registration_id))
                 obs.append((tag + ": signed prekey signature verifies under the identity", _verify_sig(p["identity"], p["skey"][1], p["skey"][2])))
-                outstanding = (hooks.dict_get(u.attributes, "id"), p["ids"])
+                outstanding.append((hooks.dict_get(u.attributes, "id"), p["ids"]))
             if ev == "success":
                 # authenticated login: everything generated and not confirmed must be offered now
                 pending = unsent_before
@@ -190,7 +229,10 @@ def h_history(ctx, n, prefix=()):
                 unsent = set(r.getId() for r in store.preKeyStore.loadUnsentPendingPreKeys())
                 obs.append((tag + ": confirmed keys never count as pending", not (unsent & confirmed)))
             allkeys = set(r.getId() for r in store.loadPreKeys())
-            obs.append((tag + ": offered keys stay available locally", offered_ever <= allkeys))
+            obs.append((tag + ": offered keys stay available locally until consumed", (offered_ever - consumed) <= allkeys))
+            obs.append((tag + ": consumed keys never come back", not (consumed & allkeys) and not (consumed & _committed_prekey_ids(d))))
+            unsent_now = set(r.getId() for r in store.preKeyStore.loadUnsentPendingPreKeys())
+            obs.append((tag + ": a confirmed key never counts as pending again", not (unsent_now & confirmed)))
         ctx.note("history %s" % hist)
         try:
             store.identityKeyStore.dbConn.close()
